@@ -379,6 +379,11 @@ fn el(p: &P, b: &mut B, depth: usize, rest: &[P], used: &mut usize) -> XEl {
                     u.set("href", "other.svg#thing");
                     b.f("use.external-href");
                 }
+                _ if p.f & 0x80 != 0 => {
+                    // the target's size is given in units: nothing is known about it in user units
+                    u.set("href", "#unitbox");
+                    b.f("use.unit-sized-target");
+                }
                 _ if p.f & 0x40 != 0 => {
                     // ids are XML names: '.', '-', '_' and ':' are legal name characters
                     u.set("href", "#shape.v2-a");
@@ -391,6 +396,10 @@ fn el(p: &P, b: &mut B, depth: usize, rest: &[P], used: &mut usize) -> XEl {
             }
             u.set("x", n(0, b));
             u.set("y", n(1, b));
+            if p.f & 0x20 != 0 {
+                u.set("x", "10%");
+                b.f("use.percent-position");
+            }
             u
         }
         12 => XEl::new("title").text(p.txt.clone()),
@@ -445,7 +454,14 @@ fn el(p: &P, b: &mut B, depth: usize, rest: &[P], used: &mut usize) -> XEl {
         }
         20 => {
             let mut c = XEl::new("circle").a("cx", n(0, b)).a("cy", n(1, b)).a("r", l(0, b));
-            c.kids.push(X::El(XEl::new("animate").a("attributeName", "r").a("from", "1").a("to", "5").a("dur", "2s").a("repeatCount", "indefinite")));
+            let mut an = XEl::new("animate").a("attributeName", "r").a("from", "1").a("to", "5").a("dur", "2s").a("repeatCount", "indefinite");
+            if p.f & 0x10 != 0 {
+                // timing attributes of SVG animation elements
+                an.set("begin", "0s");
+                an.set("end", "5s");
+                b.f("animate.begin-end");
+            }
+            c.kids.push(X::El(an));
             b.f("animate-child");
             c
         }
@@ -461,6 +477,11 @@ fn el(p: &P, b: &mut B, depth: usize, rest: &[P], used: &mut usize) -> XEl {
         }
         _ => XEl::new("rect").a("x", n(0, b)).a("y", n(1, b)).a("width", "100%").a("height", "50%"),
     };
+    // a shape written with separate tags and only white space between them (pretty-printed output of other tools)
+    if matches!(e.name.as_str(), "rect" | "circle" | "ellipse" | "line" | "polyline" | "polygon" | "path") && e.kids.is_empty() && (p.f >> 9) & 7 == 5 {
+        e.kids.push(X::Raw("\n    ".into()));
+        b.f("shape.whitespace-content");
+    }
     // coordinates may be left out (SVG: as if 0) or be given as percentages, one axis at a time
     if matches!(e.name.as_str(), "rect" | "circle" | "ellipse" | "image") && p.kind != 21 {
         let (ax, ay) = if matches!(e.name.as_str(), "circle" | "ellipse") { ("cx", "cy") } else { ("x", "y") };
@@ -509,6 +530,7 @@ fn defs_block() -> XEl {
         .kid(XEl::new("symbol").a("id", "sym1").a("viewBox", "0 0 10 10").kid(XEl::new("rect").a("width", "10").a("height", "10")))
         .kid(XEl::new("rect").a("id", "shape1").a("width", "8").a("height", "4"))
         .kid(XEl::new("rect").a("id", "shape.v2-a").a("width", "3").a("height", "3"))
+        .kid(XEl::new("rect").a("id", "unitbox").a("width", "2cm").a("height", "1cm"))
         .kid(XEl::new("circle").a("id", "circ1").a("cx", "5").a("cy", "5").a("r", "5"))
         .kid(XEl::new("path").a("id", "pathdef").a("d", "M0 0 C 10 10 20 10 30 0"))
         .kid(XEl::new("pattern").a("id", "pat1").a("width", "4").a("height", "4").a("patternUnits", "userSpaceOnUse").kid(XEl::new("circle").a("cx", "2").a("cy", "2").a("r", "1")))
@@ -543,6 +565,11 @@ fn fam_docs(_t: Tier) -> BoxedStrategy<Case> {
                 }
                 if root_attrs & 4 != 0 {
                     root.set("preserveAspectRatio", "xMinYMin meet");
+                }
+                if root_attrs & 32 != 0 && root_attrs & 3 == 0 {
+                    // one dimension only, in any spelling of a length
+                    root.set(if root_attrs & 64 != 0 { "width" } else { "height" }, ["1e2", "+5cm", "1.5e1em", ".5in", "200"][(root_attrs >> 5) as usize % 5]);
+                    b.f("root.single-dimension");
                 }
                 if root_attrs & 8 != 0 {
                     root.set("class", "doc one");
@@ -587,6 +614,7 @@ fn same(a: &Element, b: &Element, is_root: bool, path: &str) -> Result<(), (Stri
         "use" => match (a.attr("href"), a.attr("xlink:href")) {
             (Some("#circ1"), _) => Some("use.circle-target"),
             (Some("#shape.v2-a"), _) => Some("use.dotted-id"),
+            (Some("#unitbox"), _) => Some("use.unit-sized-target"),
             (Some("#sym1"), _) => Some("use.symbol"),
             (Some(h), _) if !h.starts_with('#') => Some("use.external-href"),
             (None, Some(_)) => Some("use.xlink-href"),
@@ -727,7 +755,7 @@ impl Property for C04 {
             // prefer a feature that belongs to the element named in the clause's detail
             let el_pref: &[(&str, &[&str])] = &[
                 ("<line>", &["line.omitted-coordinates"]),
-                ("<use>", &["use.dotted-id", "use.external-href", "use.xlink-href", "use.circle-target", "use.symbol"]),
+                ("<use>", &["use.unit-sized-target", "use.percent-position", "use.dotted-id", "use.external-href", "use.xlink-href", "use.circle-target", "use.symbol"]),
                 ("<text>", &["text.xy-list", "text.xy-length"]),
                 ("<svg>", &["root.attrs"]),
                 ("<image>", &["href.xlink"]),
@@ -741,7 +769,7 @@ impl Property for C04 {
                 }
             }
             let clause = clause.split('@').next().unwrap_or(clause);
-            const ORDER: &[&str] = &["geom.omitted-coordinate", "geom.percent-coordinate", "ref.none", "use.dotted-id", "text.xy-list", "text.xy-length", "transform.space-before-paren", "root.attrs", "use.external-href", "use.xlink-href", "use.circle-target", "use.symbol", "href.xlink", "path.compact-arc-flags", "list.sign-separated", "transform.no-separator", "num.exponent", "num.plus-sign", "num.leading-dot", "num.trailing-dot", "text.textPath", "text.tspan-mixed", "text.tspans", "text.dx-list", "foreignObject", "nested-svg", "switch", "animate-child", "style.cdata", "line.omitted-coordinates", "rect.corner-radius", "length.unit-with-number-forms", "length.unit", "length.percent", "path.arcs", "path.curves", "attr.path", "attr.points", "attr.transform"];
+            const ORDER: &[&str] = &["root.single-dimension", "shape.whitespace-content", "animate.begin-end", "use.unit-sized-target", "use.percent-position", "geom.omitted-coordinate", "geom.percent-coordinate", "ref.none", "use.dotted-id", "text.xy-list", "text.xy-length", "transform.space-before-paren", "root.attrs", "use.external-href", "use.xlink-href", "use.circle-target", "use.symbol", "href.xlink", "path.compact-arc-flags", "list.sign-separated", "transform.no-separator", "num.exponent", "num.plus-sign", "num.leading-dot", "num.trailing-dot", "text.textPath", "text.tspan-mixed", "text.tspans", "text.dx-list", "foreignObject", "nested-svg", "switch", "animate-child", "style.cdata", "line.omitted-coordinates", "rect.corner-radius", "length.unit-with-number-forms", "length.unit", "length.percent", "path.arcs", "path.curves", "attr.path", "attr.points", "attr.transform"];
             let f = ORDER.iter().find(|o| c.features.iter().any(|f| f == *o)).copied().unwrap_or("plain");
             format!("c04:{clause}:{f}")
         };
